@@ -93,7 +93,7 @@ SPEC = dict(
             _run("grammar-families", "--space", "grammars", "--family", "all", "--tier", "thorough"),
             _run("level-stamp", "--space", "level", "--tier", "thorough"),
             _run("truncation", "--space", "trunc", "--tier", "thorough", "--hi", 200, "--modes", "1,2", "--rich", 8),
-            _run("block-boundary-ladder-uri-value", "--space", "ladder", "--tier", "thorough", "--hi", 4060, "--step", 7, "--modes", "1,2", "--rich", 8, "--sax-only", 1),
+            _run("block-boundary-ladder-uri-value", "--space", "ladder", "--tier", "thorough", "--hi", 3500, "--step", 7, "--modes", "1,2", "--rich", 8, "--sax-only", 1),
             _run("block-boundary-ladder-list-annotation", "--space", "ladder", "--tier", "thorough", "--hi", 150, "--modes", "3,4", "--rich", 8, "--sax-only", 1),
             _run("long-value-sweep-dtd", "--space", "ladder", "--tier", "thorough", "--lo", 4090, "--hi", 8300, "--modes", "2", "--rich", 8, "--only-rich", 3, "--sax-only", 1),
             _run("long-value-sweep-schema", "--space", "ladder", "--tier", "thorough", "--lo", 4090, "--hi", 8300, "--modes", "2", "--rich", 8, "--only-rich", 5, "--sax-only", 1),
